@@ -497,7 +497,12 @@ func genC14(g *Gen) {
 	extra := []struct {
 		e    string
 		a, d float64
-	}{{"2^64-59", 1, 3}, {"2^89-1", 2, 1}, {"0xdeadbeefcafef00d", 0.1, 0.7}, {"1000003", 7, 7}}
+	}{{"2^64-59", 1, 3}, {"2^89-1", 2, 1}, {"0xdeadbeefcafef00d", 0.1, 0.7}, {"1000003", 7, 7},
+		// weights of very different magnitude (costs in seconds or joules; in units of 10^300): the
+		// selection must still take the minimum
+		{"2^255-19-2", 2.5e-12, 2e-12}, {"2^127-1", 1e-10, 1e-10}, {"2^89-1", 1e300, 7e299}, {"2^64-59", 3e-300, 1e-300},
+		// a dense 512-bit target (brainpoolP512r1 p - 2): the printed script is over 2 KB
+		{"0xaadd9db8dbe9c48b3fd4e6ae33c9fc07cb308db3b3c9d20ed6639cca703308717d4d9b009bc66842aecda12ae6a380e62881ff2f2d82c68528aa6056583a48f3 - 2", 1, 1}}
 	for _, x := range extra {
 		jobs = append(jobs, c14Job{expr: x.e, A: x.a, D: x.d, Ps: []int{16, 1, 3}, tag: "extra"})
 	}
